@@ -32,7 +32,7 @@ wvars == <<ph, dv, out, nact, cw, running, started, wc, rs, ex>>
 wall == <<vars, tvars, wvars>>
 
 DV0 == [tried |-> 0, max |-> 0, rec |-> FALSE, res |-> FALSE, due |-> 0]
-WC0 == [tl |-> 0, ml |-> 0, stop |-> FALSE, stopdl |-> 0, forced |-> FALSE, ret |-> FALSE, donedl |-> 0]
+WC0 == [tl |-> 0, ml |-> 0, stop |-> FALSE, stopdl |-> 0, gdl |-> 0, forced |-> FALSE, ret |-> FALSE, donedl |-> 0]
 
 WInit == /\ TInit
          /\ ph = [i \in Ids |-> "idle"] /\ dv = [i \in Ids |-> DV0] /\ out = [i \in Ids |-> "none"]
@@ -95,10 +95,12 @@ WBe == /\ Is("be") /\ Step
        /\ UNCHANGED <<vars, calls, chk, devs, taint, rdl, rdls, dead, unsure, enqAt, ovt, mvAt, ph, dv, out, nact, cw, started, wc, rs>>
 
 WStop == /\ Is("stop") /\ Step
-         /\ wc' = [wc EXCEPT !.stop = TRUE, !.stopdl = Ev.dl]
+         /\ wc' = [wc EXCEPT !.stop = TRUE, !.stopdl = Ev.dl, !.gdl = Ev.gdl]
          /\ UNCHANGED <<vars, calls, chk, devs, taint, rdl, rdls, dead, unsure, enqAt, ovt, mvAt, ph, dv, out, nact, cw, running, started, rs, ex>>
 
 WForced == /\ Is("forced") /\ Step
+           \* running executions are cancelled only after a stop (request or messages limit), and not before the graceful period is over
+           /\ (Has("stop") \/ Has("mlimit")) => (wc.stop /\ now >= wc.gdl)
            /\ wc' = [wc EXCEPT !.forced = TRUE]
            /\ UNCHANGED <<vars, calls, chk, devs, taint, rdl, rdls, dead, unsure, enqAt, ovt, mvAt, ph, dv, out, nact, cw, running, started, rs, ex>>
 
@@ -138,6 +140,8 @@ WQuiet == /\ Is("quiet") /\ Step
 (* every job of the scenario must have run by the scenario's deadline (bounded liveness, C09/C10) *)
 WLate == /\ Is("late") /\ Step
          /\ Has("progress") => FALSE
+         \* Worker.run() raising is never part of any of the worker properties' good behaviours
+         /\ Ev.raised => ~(\E c \in {"dispo", "retry", "recur", "limit", "mlimit", "route", "stop", "result", "once", "ttlclock"} : Has(c))
          /\ UNCHANGED <<vars, calls, chk, devs, taint, rdl, rdls, dead, unsure, enqAt, ovt, mvAt, wvars>>
 
 (* ---- shadow of the broker-level events -------------------------------------------------- *)
